@@ -14,7 +14,7 @@ func TestC05Step(t *testing.T) {
 	p.col.Sub = "step"
 	p.ntAccessOnly = true
 	defer finish(t, p.col)
-	p.col.Rule = "step: every implemented encoding (930, enumerated) x rapid-drawn pre-state, operand bytes, device data (port reads return a byte that " +
+	p.col.Rule = "step: every encoding of the model (936 = the 930 the pinned tree supports + 6 undocumented RETN mirrors, which are skipped where a tree does not support them; enumerated) x rapid-drawn pre-state, operand bytes, device data (port reads return a byte that " +
 		"depends on port number and read index), 1/3 of cases with pointers aliased onto the instruction / stack / 0xFFFF; oracle = the reference " +
 		"model's own access log: per-address sequence of reads and writes (hence read multiset, write multiset, read-before-write) and the ordered " +
 		"port log (direction, port, value); non-trivial = the instruction makes a data or port access; distinct by hash(encoding, pre-state, operands, memory seed)"
